@@ -19,14 +19,14 @@ PARTIAL = ''
 def build_case(rng, k):
     from dliswriter import DLISFile
     vrl = rng.choice([32, 64, 128, 1024, 8192, 16384])
-    kind = rng.choice(['inline', 'dict', 'struct'])
+    kind = rng.choice(['inline', 'dict', 'struct', 'struct_padded'])
     rows = rng.randrange(1, 10)
     nch = rng.randrange(1, 5)
     chans = []
     for j in range(nch):
         width = 'rand' if rng.random() < 0.9 else rng.choice([vrl // 4 + 3, 40])
         ch = datagen.gen_channel(rng, rows, 'C%d' % j, width=width)
-        if kind == 'struct' and ch['layout'] in ('F', 'strided', 'view'):
+        if kind in ('struct', 'struct_padded') and ch['layout'] in ('F', 'strided', 'view'):
             ch['layout'] = 'C'
         chans.append(ch)
     org = rng.choice([1, 3, 200])
@@ -43,9 +43,19 @@ def build_case(rng, k):
     data = None
     if kind == 'dict':
         data = dict(arrays)
-    elif kind == 'struct':
-        dt = np.dtype([(c['name'], arrays[c['name']].dtype) if c['width'] is None else (c['name'], arrays[c['name']].dtype, (c['width'],)) for c in chans])
-        data = np.zeros(rows, dtype=dt)
+    elif kind in ('struct', 'struct_padded'):
+        fields = [(c['name'], arrays[c['name']].dtype) if c['width'] is None else (c['name'], arrays[c['name']].dtype, (c['width'],)) for c in chans]
+        if kind == 'struct_padded':
+            how = rng.choice(['align', 'view'])
+            if how == 'align':
+                dt = np.dtype(fields, align=True)
+                data = np.zeros(rows, dtype=dt)
+            else:
+                # a multi-field view of a wider table: keeps the offsets (padding) of the parent
+                wide = np.zeros(rows, dtype=np.dtype([('PAD0', 'u1')] + [f for c, f in zip(chans, fields) for f in (f, ('PAD_' + c['name'], 'u1', (3,)))]))
+                data = wide[[c['name'] for c in chans]]
+        else:
+            data = np.zeros(rows, dtype=np.dtype(fields))
         for c in chans:
             data[c['name']] = arrays[c['name']]
     return {'vrl': vrl, 'kind': kind, 'rows': rows, 'chans': chans, 'origin': org, 'frame': fname,
@@ -53,6 +63,7 @@ def build_case(rng, k):
 
 
 def run(ctx):
+    rewrite_cases(ctx)
     rng = ctx.rng('frames')
     n = 120 if ctx.tier == 'quick' else 1500
     for k in range(n):
@@ -122,6 +133,46 @@ def run(ctx):
                         'channels': [(c['dtype'], c['order'], c['width'], c['layout'], c['cast']) for c in spec['chans']]})
         if ctx.tier == 'thorough' and k % 10 == 0:
             dlisio_crosscheck(ctx, spec, df, data)
+
+
+def rewrite_cases(ctx):
+    """The same DLISFile written twice with different data of the same shape, and inline data overridden by the dict
+    passed to write(): the records must carry the data of THAT write."""
+    from dliswriter import DLISFile
+    rng = ctx.rng('rewrite')
+    for k in range(12 if ctx.tier == 'quick' else 120):
+        rows = rng.randrange(1, 6)
+        dt = rng.choice(datagen.DTYPES)
+        c1 = datagen.gen_channel(rng, rows, 'A', dtype=dt, width=None, order='<', layout='C', cast=None)
+        c2 = dict(c1, seed=c1['seed'] + 1)
+        c3 = dict(c1, seed=c1['seed'] + 2)
+        mode = rng.choice(['two_dicts', 'inline_then_dict', 'inline_twice'])
+        df = DLISFile()
+        lf = df.add_logical_file()
+        lf.add_origin('O', file_set_number=1, origin_reference=1, creation_time='2020/01/01 00:00:00')
+        ch = lf.add_channel('A', data=datagen.physical_array(c1) if mode != 'two_dicts' else None)
+        lf.add_frame('F', channels=[ch])
+        writes = []
+        if mode == 'two_dicts':
+            writes = [({'A': datagen.physical_array(c2)}, c2), ({'A': datagen.physical_array(c3)}, c3)]
+        elif mode == 'inline_then_dict':
+            writes = [(None, c1), ({'A': datagen.physical_array(c2)}, c2), ({'A': datagen.physical_array(c3)}, c3)]
+        else:
+            writes = [(None, c1), (None, c1)]
+        for wi, (data, cexp) in enumerate(writes):
+            o = impl.outcome(lambda: impl.write_real(df, data=data))
+            ctx.count('K-rewrite', key=(k, mode, wi))
+            det = {'mode': mode, 'write_index': wi, 'dtype': dt, 'rows': rows}
+            if o[0] != 'ok':
+                ctx.violation('rewrite-raises', {**det, 'impl': o})
+                break
+            rd = ctx.model.one([8, 1, 8192, text('MAIN-STORAGE-UNIT'), o[1]['file']])
+            bodies = [b for e, t, b in rd[1] if not e and t == 0] if rd[0] == 0 else None
+            exp = datagen.expected_slots(cexp)
+            want = ctx.model.batch([[12, [1, 0, text('F')], i + 1, [[exp[i][0], __import__('common').U(exp[i][1])]]] for i in range(rows)])
+            if bodies is None or bodies != [w[1] for w in want]:
+                ctx.violation('records-do-not-carry-the-data-of-this-write', det)
+                break
 
 
 def dlisio_crosscheck(ctx, spec, df, data):
